@@ -188,18 +188,21 @@ type Check struct {
 	Verif string
 	T0    time.Time
 
-	results   []*Result
-	execs     []*Exec
-	outOfSub  []string
-	bounded   []map[string]any
-	dataObl   []map[string]any
-	flowObl   []map[string]any
-	assume    map[string]bool
-	explanation string
-	extraCov  map[string]any
-	violation []string
-	known     []string
-	engineErr []string
+	results      []*Result
+	execs        []*Exec
+	outOfSub     []string
+	bounded      []map[string]any
+	dataObl      []map[string]any
+	dataFactDone map[string]bool
+	crossLight   bool
+	replayExtra  func(r *Result) (map[string]any, bool)
+	flowObl      []map[string]any
+	assume       map[string]bool
+	explanation  string
+	extraCov     map[string]any
+	violation    []string
+	known        []string
+	engineErr    []string
 }
 
 func (ck *Check) timeout() int {
@@ -252,7 +255,7 @@ func (ck *Check) discharge(jobs []job) {
 	work := filepath.Join(ck.Verif, ".work", fmt.Sprint(os.Getpid()))
 	os.MkdirAll(work, 0o755)
 	defer os.RemoveAll(work)
-	r := &Runner{Dir: work, TimeoutS: ck.timeout(), Thorough: ck.Tier == "thorough"}
+	r := &Runner{Dir: work, TimeoutS: ck.timeout(), Thorough: ck.Tier == "thorough", CrossLight: ck.crossLight}
 	res := make([]*Result, len(jobs))
 	var wg sync.WaitGroup
 	sem := make(chan struct{}, runtime.NumCPU())
